@@ -1261,7 +1261,7 @@ func main() {
 		}
 		enum(nil, 3)
 		c.Note("counters: every single case with 1-3 executions over pass/fail/error/skip enumerated (84 cases)")
-		for i := 0; i < c.Scale(250, 4000); i++ {
+		for i := 0; i < c.Scale(150, 4000); i++ {
 			r := c.Rng.Fork()
 			cs := []Case{}
 			domain := true
@@ -1288,7 +1288,7 @@ func main() {
 		}
 
 		// --- 3. Add
-		for i := 0; i < c.Scale(200, 3000); i++ {
+		for i := 0; i < c.Scale(120, 3000); i++ {
 			r := c.Rng.Fork()
 			names := []string{lib.Pick(r, namePool), lib.Pick(r, namePool), lib.Pick(r, namePool)}
 			classes := []string{lib.Pick(r, classPool), lib.Pick(r, classPool)}
@@ -1388,14 +1388,14 @@ func main() {
 			}
 			c.Fail("parse-mismatch", what, js)
 		}
-		for i := 0; i < c.Scale(260, 5000); i++ {
+		for i := 0; i < c.Scale(200, 5000); i++ {
 			r := c.Rng.Fork()
 			shape := lib.Pick(r, []int{0, 0, 0, 0, 1, 2})
 			d := genXMLDatum(r, shape, r.Chance(1, 5))
 			c.HistN("xml_shape", shape)
 			parseCase(d, "x"+d.Text)
 		}
-		for i := 0; i < c.Scale(160, 3000); i++ {
+		for i := 0; i < c.Scale(110, 3000); i++ {
 			r := c.Rng.Fork()
 			parseCase(genGoDatum(r, r.Chance(1, 6)), "g"+fmt.Sprint(i))
 		}
@@ -1416,7 +1416,7 @@ func main() {
 				judge(c, "in-process", sc, n, ok)
 			}
 		}
-		for i := 0; i < c.Scale(300, 6000); i++ {
+		for i := 0; i < c.Scale(220, 6000); i++ {
 			r := c.Rng.Fork()
 			if r.Chance(1, 4) {
 				flakeCase(genWildScenario(r, "wild"+strconv.Itoa(i)))
@@ -1428,7 +1428,7 @@ func main() {
 		// --- 6. the same through the real binary
 		if plz := os.Getenv("VERIF_PLZ"); plz != "" {
 			scs := []Scenario{}
-			for i := 0; i < c.Scale(40, 400); i++ {
+			for i := 0; i < c.Scale(30, 300); i++ {
 				r := c.Rng.Fork()
 				if i%5 == 4 {
 					sc := genWildScenario(r, "w"+strconv.Itoa(i))
